@@ -79,7 +79,7 @@ def r_disp2eig(ctx, model):
                       explanation="a displacement matrix whose width is not 3 x (number of masses) is accepted", key=f"disp2eig.guard.{label}")
         except RaisedV as e:
             ctx.ok(f"shape guard: {label} columns rejected", w, e.exc_name)
-    ctx.check("a" not in mutated_params(f) and f.args.args[0].arg == "a", "the caller's array is copied before the in-place products", w, expected="a = numpy.copy(a) first",
+    ctx.check(not (mutated_params(f) & {a_.arg for a_ in f.args.args[:2]}), "the caller's arrays are copied before the in-place products", w, expected="a fresh copy of the displacement array first",
               found=f"mutated parameters: {sorted(mutated_params(f))}", explanation="evec_disp2eig scales its argument in place: the caller's displacement "
                                                                                     "vectors are silently overwritten", key="disp2eig.copy")
 
